@@ -144,9 +144,10 @@ def classify(prog, run, r):
 
 def run_case(prog):
     r = Result()
-    run = sched.run_program(prog, "do", collect="auto")
+    run = sched.run_program(prog, prog.get("mode") or "do", collect="auto")
     judge(prog, run, r)
     classify(prog, run, r)
+    r.labels.append("mode:" + (prog.get("mode") or "do"))
     return r
 
 
@@ -157,8 +158,16 @@ def _strategies():
     return full, nomem
 
 
+def _group_strategy():
+    """Hosts with several long-lived members and callers that remove / extend 2-4 of them in one call, in any order."""
+    return schedgen.program(maxdepth=2, faults=False, members=True, always_ok=True, dd_tocks=(0.0, 0.0, 0.25), dd_odds=2,
+                            group_ops=True, min_leaves=4, max_leaves=8, max_steps=4)
+
+
 def searches(tier):
     q = tier == "quick"
     full, nomem = _strategies()
     return [("faults", nomem, 500 if q else 8000),
-            ("faults+membership", full, 500 if q else 8000)]
+            ("faults+membership", full, 500 if q else 8000),
+            ("group-membership", _group_strategy(), 300 if q else 5000),
+            ("same-cycle-calls", schedgen.same_cycle_program(), 300 if q else 5000)]
